@@ -619,6 +619,8 @@ class Exec(object):
                     self.binders.append(([], cz)); pushed += 1
             if isinstance(e, ast.DictComp):
                 elem = (self.ev(p, e.key), self.ev(p, e.value))
+            elif getattr(self, 'elt_hint', None) is not None and self.is_empty_literal(e.elt):
+                elem = self.empty_of(self.elt_hint, e.elt)
             else:
                 elem = self.ev(p, e.elt)
         finally:
@@ -1169,6 +1171,10 @@ class Exec(object):
             a = self.under(p, c, lambda: self.ev_hint(p, e.body, t)); b = self.under(p, Not(c), lambda: self.ev_hint(p, e.orelse, t))
             a, b = self.unify(a, b)
             return SV(a.t, If(c, a.z, b.z))
+        if t is not None and t.kind == 'list' and isinstance(e, ast.ListComp) and self.is_empty_literal(e.elt):
+            self.elt_hint = t.args[0]         # [set() for ...]: the declared element type types the empty literal
+            try: return self.list_of_gen(p, self.gen_of(p, e))
+            finally: self.elt_hint = None
         v = self.ev(p, e)
         if isinstance(v, Gen):
             if t is not None and t.kind == 'set': return self.set_of_gen(p, v)
@@ -1426,6 +1432,7 @@ class Exec(object):
 
     def s_While(self, p, st):
         n, L = self.loop_contract(st)
+        self.before_loop(p, n, L)
         self.check_inv(p, n, L, 'init')
         mod = assigned_names(st.body)
         h = p.clone(); self.havoc(h, mod); self.assume_inv(h, L)
@@ -1455,8 +1462,16 @@ class Exec(object):
             outs.append(q)
         return outs
 
+    def before_loop(self, p, n, L):
+        """hints stated just before a loop: each is proved on the path reaching the loop, then assumed (Dafny-style assert)"""
+        for i, hint in enumerate(L.get('before', [])):
+            g = self.spec(p, hint)
+            self.oblig(p, 'loop%d/before#%d' % (n, i + 1), 'assert', g)
+            p.pc.append(g)
+
     def s_For(self, p, st):
         n, L = self.loop_contract(st)
+        self.before_loop(p, n, L)
         it = self.iterable(p, st.iter)
         kind = it[0]
         mod = assigned_names(st.body) | assigned_names([ast.Assign(targets=[st.target], value=ast.Constant(value=0))])
